@@ -371,33 +371,34 @@ def ns_pivot_ob(tier):
     grid = [(3, 3), (4, 4), (4, 5)] if q else [(3, 3), (4, 4), (4, 5), (5, 4), (5, 5)]
     cubes = [dict(c, SYMDELTA=sd) for c in dag_cubes(grid) for sd in (0, 1) if sd == 0 or (c["N"], c["M"]) in ([(3, 3)] if q else [(3, 3), (4, 4)])]
     if not q:
-        cubes = [c for i, c in enumerate(cubes) if (c["N"], c["M"]) != (5, 5) or i % 4 == 0]
+        cubes = [c for i, c in enumerate(cubes) if (c["N"], c["M"]) != (5, 5) or i % 8 == 0]
     return dict(name="ns-pivot-lemma", pkg="internal/phase2", func="Harness_NS_Pivot", consts={}, cubes=cubes, enctimeout=300, qtimeout=120,
                 bounds="one network-simplex pivot from an ARBITRARY feasible tight spanning tree: all canonical connected DAGs with (N,M) in %s (parallel edges "
                        "included) as cubes; symbolic: the layering (0..2N per node) and the set of tree edges, assumed only to satisfy the invariant; for (N,M)=(3,3) [thorough: also (4,4)] additionally "
-                       "with symbolic minimum lengths Delta in 0..3 and weights in 0..2 per edge (as the NetworkSimplex positioner uses the same code)%s" % (grid, "" if q else "; every 4th cube of the (5,5) class"))
+                       "with symbolic minimum lengths Delta in 0..3 and weights in 0..2 per edge (as the NetworkSimplex positioner uses the same code)%s" % (grid, "" if q else "; every 8th cube of the (5,5) class"))
 
 
 def ns_whole_obs(tier, which):
     q = tier == "quick"
-    grid = [(3, 3), (4, 4)] if q else [(3, 3), (4, 4), (4, 5), (5, 4)]
+    grid = [(3, 3), (4, 4)] if q else [(3, 3), (4, 4), (5, 4), "every 2nd of (4, 5)"]
+    whole = dag_cubes([(3, 3), (4, 4)]) if q else dag_cubes([(3, 3), (4, 4), (5, 4)]) + dag_cubes([(4, 5)])[::2]
     out = []
     if "feasible" in which:
-        out.append(dict(name="ns-whole-feasible", pkg="internal/phase2", func="Harness_NS_Feasible", consts={}, cubes=dag_cubes(grid), enctimeout=90, qtimeout=60, loop=64, chunk=150,
+        out.append(dict(name="ns-whole-feasible", pkg="internal/phase2", func="Harness_NS_Feasible", consts={}, cubes=whole, enctimeout=90, qtimeout=60, loop=64, chunk=150,
                         bounds="whole real execNetworkSimplex (feasible tree, pivots, normalize, vbalance) on all canonical connected DAGs with (N,M) in %s (cubes); symbolic: the "
                                "minimum length of every edge in 0..2 (stands in for the slacks of larger graphs; the NS positioner runs the same code with arbitrary lengths)" % grid))
     if "optimal" in which:
-        out.append(dict(name="ns-whole-optimal", pkg="internal/phase2", func="Harness_NS_Optimal", consts={"SYMW": 0}, cubes=dag_cubes(grid), enctimeout=90, qtimeout=60, loop=64, chunk=150,
+        out.append(dict(name="ns-whole-optimal", pkg="internal/phase2", func="Harness_NS_Optimal", consts={"SYMW": 0}, cubes=whole, enctimeout=90, qtimeout=60, loop=64, chunk=150,
                         validate_cubes=0,
                         bounds="whole real execNetworkSimplex without balancing, iteration budget beyond the engine's loop bound (capped runs are cut, not judged), same cubes; "
                                "symbolic: minimum lengths 0..2 and an arbitrary alternative layering alt[] - the solver searches for a cheaper feasible one"))
     if "optimal" in which:
         k4 = [c for c in dag_cubes([(4, 6)]) if len({(c["ef[%d]" % i], c["et[%d]" % i]) for i in range(6)}) == 6]
-        out.append(dict(name="ns-whole-optimal-k4-weighted", pkg="internal/phase2", func="Harness_NS_Optimal", consts={"SYMW": 1}, cubes=k4[::12] if q else k4,
+        out.append(dict(name="ns-whole-optimal-k4-weighted", pkg="internal/phase2", func="Harness_NS_Optimal", consts={"SYMW": 1}, cubes=k4[::12] if q else k4[::2],
                         enctimeout=240, qtimeout=90, loop=64, chunk=24, validate_cubes=0,
                         bounds="whole real execNetworkSimplex on the complete 4-node DAG (6 edges) in %s of its 720 edge orders; symbolic: minimum lengths 0..2, WEIGHTS 1..2 per edge "
                                "(a weight-2 edge stands for a pair of parallel edges; the NetworkSimplex positioner runs the same code with weights) and the alternative layering alt[]"
-                               % ("every 12th" if q else "all")))
+                               % ("every 12th" if q else "every 2nd")))
     return out
 
 
